@@ -33,6 +33,9 @@ CLAIMED = {
  "C05": ("lattice", "bounded-exhaustive enumeration of registry shapes x routing requests (full product) and of the request gate product, on the real Validate/ServeSSO/ServeIDPInitiated, against a reference selection model",
          "Every SP metadata shape with <=2 (thorough <=3) ACS endpoints over bindings x indices x isDefault x locations and every split over descriptors, registered through XML, is crossed with every routing request (ACS URL absent/registered/request-only x index absent/0/1/7/x): the selected endpoint must be a registered one in the statement's order and the written form must post to it; the gate product (Issuer x Destination x Version x IssueInstant around the freshness boundary x encoding x tolerance settings) must be refused exactly when the statement says.",
          "DESIGN.md §3 C05", TRUST),
+ "C06": ("lattice", "deviation-bounded exhaustive enumeration (<=4 axes off default quick, full product thorough) of request x session x SP shape x IdP key/signer x signature method x intermediates x clock x tolerance, with an independent decoder and fresh signature verification as oracle",
+         "Each point drives the real ServeSSO / ServeIDPInitiated (after a decoy-session response on the same IdP object); the emitted page is decoded independently (HTML tokenizer, base64, etree, own decryption) and every scoping field, the identity content and both enveloped signatures (method, key, certificate) are checked against the registry, the request, the session and the clock.",
+         "DESIGN.md §3 C06", TRUST),
  "C09": ("lattice", "bounded-exhaustive enumeration of message shapes (all subsets of optional parts with a valid signature re-applied, framings, prefixes, single tree edits, size ladders) and exhaustive single-fault enumeration of the artifact resolver, with a totality oracle",
          "For every consuming API: all subsets (size <=3 quick, <=4 thorough; all subsets for the smaller messages) of optional elements/attributes are removed from a schema-valid message, the harness IdP re-signs (and optionally encrypts) it, and the call must return a result xor an error of the documented type - never panic; plus base64/deflate framings, inflate ladders around the 10 MB limit with an allocation bound, every prefix and every single-node edit of fixtures, degenerate documents, depth/width ladders, and every single resolver fault including a read error after k bytes for every k.",
          "DESIGN.md §3 C09", "enumerated families only (no coverage-guided byte fuzzing); a hang shows up as a worker that never reports, attributed to the case it was running"),
